@@ -724,7 +724,9 @@ func Header(pkg string) string {
 		"func up(s string) string { return strings.ToUpper(s) }\n\n" +
 		"templ leaf() {\n\t<i>leaf</i>\n}\n\n" +
 		"templ wrap() {\n\t<section>\n\t\t{ children... }\n\t</section>\n}\n\n" +
-		"templ kid() {\n\t<u>kid</u>\n}\n\n"
+		"templ kid() {\n\t<u>kid</u>\n}\n\n" +
+		"type boxT struct{}\n\nvar box boxT\n\n" +
+		"templ (b boxT) item() {\n\t<em>m</em>\n}\n\n"
 }
 
 // Template prints one template declaration.
